@@ -60,8 +60,47 @@ Definition data_of (cls : reply_cls) (root : xnode) : data_view :=
       else match find_child n_sdata root with Some d => DText (lead_text d) | None => DAttrErr end
   end.
 
-(* ---------- one synchronous call ---------- *)
+(* ---------- Junos reply_parsing_error_transform for GetSchemaReply (devices/junos.py
+   fix_get_schema_reply): when the hook failed, the single child of {base}rpc-reply whose local
+   name is "data" is moved, with its subtree, from the base namespace or from no namespace into
+   the monitoring namespace; then the hook runs again ---------- *)
+Definition s_reply : bytes := Eval compute in lit "rpc-reply"%string.
+Definition n_reply : name := (Some BASE_NS, s_reply).
+
+Fixpoint x_replace_ns (o n : ns) (t : xnode) : xnode :=
+  match t with
+  | Elem x a k => Elem (rn o n x) (rename_attrs o n a) (map (x_replace_ns o n) k)
+  | other => other
+  end.
+
+Definition local_is (l : bytes) (t : xnode) : bool :=
+  match t with Elem m _ _ => beq (snd m) l | _ => false end.
+
+Definition fix_schema (root : xnode) : xnode :=
+  match root with
+  | Elem r a k =>
+      if name_eqb r n_reply then
+        match filter (local_is s_data) k with
+        | [Elem (o, _) _ _] =>
+            if ns_eqb o (Some BASE_NS) || ns_eqb o None
+            then Elem r a (map (fun c => if local_is s_data c then x_replace_ns o (Some NCM_NS) c else c) k)
+            else root
+        | _ => root
+        end
+      else root
+  | _ => root
+  end.
+
 Inductive profile := PDefault | PJunos | PAlu | PSros.
+
+(* RPCReply.parse: the hook, retried once after the profile's transform if it raised *)
+Definition hook (p : profile) (cls : reply_cls) (root : xnode) : data_view :=
+  match data_of cls root with
+  | DAttrErr => match p, cls with PJunos, ClsSchema => data_of cls (fix_schema root) | _, _ => DAttrErr end
+  | d => d
+  end.
+
+(* ---------- one synchronous call ---------- *)
 Inductive site := SReplyParse | SErrorReparse | SXsltSheet | SXsltInput | SXsltOutput.
 (* what the error logic (C06) decides for this reply: nothing raised, a single RPCError raised,
    or the aggregate RPCError built from a second parse of the raw reply *)
@@ -86,7 +125,7 @@ Definition request (P Q : bool -> bytes -> option xnode) (Q2 : bool -> xnode -> 
   match P (r_huge r) raw with
   | None => (OParseError, log1)
   | Some root =>
-      match data_of cls root with
+      match hook p cls root with
       | DAttrErr => (OHookError, log1)
       | d =>
           match rk with
